@@ -152,7 +152,7 @@ class GPSData(BytesInterface):
         return GPSData(
             data_valid="V",
             greenwich_time=time(),
-            greenwich_date=date.today(),
+            greenwich_date=b"\x00" * 6,
             latitude=0,
             longitude=0,
             east_west="E",
